@@ -8,6 +8,7 @@ import (
 	"errors"
 	"fmt"
 	"io"
+	"math"
 
 	"github.com/sassoftware/relic/v8/lib/binpatch"
 	"github.com/sassoftware/relic/v8/lib/certloader"
@@ -27,6 +28,9 @@ func Sign(ctx context.Context, rsfBytes []byte, r io.Reader, cert *certloader.Ce
 	var rsf udifResourceFile
 	if err := binary.Read(bytes.NewReader(rsfBytes), binary.BigEndian, &rsf); err != nil {
 		return nil, nil, fmt.Errorf("udif header: %w", err)
+	}
+	if rsf.XMLOffset < 0 || rsf.XMLLength < 0 || rsf.XMLOffset > math.MaxInt64-rsf.XMLLength {
+		return nil, nil, errors.New("udif header: invalid XML offset")
 	}
 	nr := &counter{r: r}
 	bundleSize := rsf.XMLOffset + rsf.XMLLength
@@ -56,6 +60,11 @@ func Sign(ctx context.Context, rsfBytes []byte, r io.Reader, cert *certloader.Ce
 		return nil, nil, err
 	}
 	oldSize := nr.n
+	// the signature and UDIF header replace everything after the bundle, which
+	// the header must have placed inside the image
+	if bundleSize > oldSize-int64(binary.Size(rsf)) {
+		return nil, nil, fmt.Errorf("udif header: bundle ends at %d but image is %d bytes", bundleSize, oldSize)
+	}
 	// generate patch
 	rsf.SignatureLength = int64(len(blob))
 	var b bytes.Buffer
